@@ -36,6 +36,50 @@ static double min_pending(void)
 	return m;
 }
 
+/* ---- state digest after every script line (VERIF_LPSTATE=<file>), compared with the worker model (coq/TW/Worker.v) ---- */
+static FILE *lpstate_f;
+static inline uint64_t dmix(uint64_t x, uint64_t v)
+{
+	uint64_t a = x ^ v;
+	a ^= a << 13;
+	a ^= a >> 7;
+	a ^= a << 17;
+	return a + 0x9E3779B97F4A7C15ULL;
+}
+
+static void dump_state(unsigned long k)
+{
+	if(!lpstate_f)
+		return;
+	fprintf(lpstate_f, "S %lu\n", k);
+	for(uint64_t i = 0; i < app_prog.lps; ++i) {
+		struct lp_ctx *lp = &lps[i];
+		const struct app_state *st = lp->state_pointer;
+		uint64_t hh = 0, hl = 0;
+		for(array_count_t j = 0; j < array_count(lp->p.p_msgs); ++j) {
+			struct lp_msg *m = array_get_at(lp->p.p_msgs, j);
+			if(is_msg_sent(m)) {	/* a marker is only counted: its message may already have been released */
+				hh = dmix(hh, 2);
+				continue;
+			}
+			uint32_t fl = atomic_load_explicit(&m->flags, memory_order_relaxed);
+			hh = dmix(dmix(dmix(dmix(hh, 1), m->m_type == LP_INIT ? 0 : app_time_to_ticks(m->dest_t)), m->m_type), fl & 3U);
+		}
+		for(array_count_t j = 0; j < array_count(lp->mm_state.logs); ++j)
+			hl = dmix(hl, array_get_at(lp->mm_state.logs, j).ref_i);
+		fprintf(lpstate_f, "L %" PRIu64 " ", i);
+		vh_print_u(lpstate_f, st->acc);
+		fprintf(lpstate_f, " %" PRIu64 " %u ", st->cnt, (unsigned)array_count(lp->p.p_msgs));
+		vh_print_u(lpstate_f, hh);
+		fprintf(lpstate_f, " %u ", (unsigned)array_count(lp->mm_state.logs));
+		vh_print_u(lpstate_f, hl);
+		if(lp->p.bound < 0.0)
+			fprintf(lpstate_f, " -1\n");
+		else
+			fprintf(lpstate_f, " %" PRIu64 "\n", app_time_to_ticks(lp->p.bound));
+	}
+}
+
 int main(int argc, char **argv)
 {
 	if(argc < 3 || app_load(argv[1]))
@@ -69,11 +113,17 @@ int main(int argc, char **argv)
 
 	static char line[256];
 	double last_gvt = 0.0;
-	unsigned long ngvt = 0;
+	unsigned long ngvt = 0, nline = 0;
+	if(getenv("VERIF_LPSTATE"))
+		lpstate_f = fopen(getenv("VERIF_LPSTATE"), "w");
+	dump_state(0);
 	while(fgets(line, sizeof(line), stdin)) {
 		char *tok[4];
 		int n = vh_split(line, tok, 4);
 		if(n < 1) continue;
+		if(nline)
+			dump_state(nline);
+		++nline;
 		char op = tok[0][0];
 		if(op == 'P') {
 			for(int k = atoi(tok[1]); k > 0; --k)
@@ -108,6 +158,9 @@ int main(int argc, char **argv)
 			msg_allocator_on_gvt(g);
 		}
 	}
+	dump_state(nline);
+	if(lpstate_f)
+		fclose(lpstate_f);
 	VERIF_TRACE(VT_GVT, verif_bits(last_gvt), 0, 0, 0);
 	lp_fini();
 	msg_queue_fini();
